@@ -365,7 +365,10 @@ static inline int *GMap_at(GMap *m, long k)
 #define UlMap_at(m, k) GMap_at((m), (long)(k))
 #define IntMap_size GMap_size
 #define UlMap_size GMap_size
-#define IntMap_assign(dst, src) (*(dst) = (src))
+/* copy assignment; the printer hands the source over by address or by value depending on what it knows about the parameter */
+static inline GMap *GMap_assign_p(GMap *dst, GMap *src) { *dst = *src; return dst; }
+static inline GMap *GMap_assign_v(GMap *dst, GMap src) { *dst = src; return dst; }
+#define IntMap_assign(dst, src) _Generic((src), GMap *: GMap_assign_p, default: GMap_assign_v)((dst), (src))
 /* iteration */
 typedef struct IntPair { int first, second; } IntPair;
 typedef struct MapIt { GMap *m; unsigned long pos; IntPair cur; } MapIt;
